@@ -122,7 +122,7 @@ const TYPEW: &[&str] = &[
     "text", "tar",
 ];
 const COMPW: &[&str] = &["gz", "gzip", "bz2", "xz", "xzip", "lz4"];
-const OTHERW: &[&str] = &["1", "20230101", "old", "foo", "messages", "syslog"];
+const OTHERW: &[&str] = &["1", "20230101", "old", "foo", "messages", "syslog", "b", "Z", "_"];
 const JUNKS: &[&str] = &["", "~", "-", ".", ",", "?", ";", "~~", "-.", ",,,", ";~-"];
 
 fn casev(s: &str, mode: usize) -> String {
